@@ -174,6 +174,16 @@ def make_curve(ctx, prog, name, D, P):
                 ctx.derive(x0.a[0], (lambda un: lambda env: 2 * math.atan(env[un]))(u.a[0]))
             else:
                 X[0][idx] = 2 * math.atan(u)
+    if 'pivot-cycle' in prog.tags:
+        # partial pivoting picks row 1 first, then (of the remaining rows 0 and 2) row 2: the row order
+        # (1, 2, 0) is a 3-cycle, i.e. a permutation matrix that is not its own transpose
+        for p in range(P):
+            a = X[0, p]
+            ctx.assume(a[1, 0] * a[1, 0] > a[0, 0] * a[0, 0])
+            ctx.assume(a[1, 0] * a[1, 0] > a[2, 0] * a[2, 0])
+            r2 = a[2, 1] * a[1, 0] - a[2, 0] * a[1, 1]
+            r0 = a[0, 1] * a[1, 0] - a[0, 0] * a[1, 1]
+            ctx.assume(r2 * r2 > r0 * r0)
     if 'posdet' in prog.tags:
         for p in range(P):
             ctx.assume(X[0, p, 0, 0] * X[0, p, 1, 1] - X[0, p, 0, 1] * X[0, p, 1, 0] > 0)
